@@ -29,12 +29,13 @@ class ExcelProjectIo(ProjectIoInterface):
         -------
             :class:`Parameters`
         """
-        # labels are text, whatever they look like ('1.10', 'true', 'none', ...)
+        # labels and expressions are text, whatever they look like ('1.10', 'true', 'none', '2', ...)
         header = pd.read_excel(file_name, nrows=0).columns
         label_columns = [column for column in header if column.lower() == "label"]
+        text_columns = [column for column in header if column.lower() in ("label", "expression", "expr")]
         df = pd.read_excel(
             file_name,
-            dtype={column: str for column in label_columns},
+            dtype={column: str for column in text_columns},
             keep_default_na=False,
             na_values={
                 column: ["", "None", "none", "nan", "NaN"]
